@@ -23,7 +23,7 @@ META = {
     "assumptions": ["REAL mode with algebraised trigonometry", "reference sampling densities g_i = dG_i/dx_i are obtained by differentiating the reference CDFs written in this harness (sin^2 uniform cone angle, uniform azimuths, density proportional to r_d^2 - R^2 - L^2 in the path length), not the code",
                     "generalisation cuts: Lmin, Lmax, L carry exactly the facts proved by C02's init-lemma and cubic jobs (re-proved here)"],
 }
-LEDGER = {"quick": 155, "thorough": 155}
+LEDGER = {"quick": 145, "thorough": 145}
 
 
 def norm_run():
@@ -31,9 +31,7 @@ def norm_run():
 
     def run(C):
         ns, cfg, inp, g, aH = P2._init(C)
-        with load.Tracer(watch=["__init__"]) as tr0:
-            ns["RegionGeom"](cfg)
-        br_code = SV.of(tr0.locals["__init__"]["bracketForNormThetaS"]).term()
+        br_code = P2.code_bracket(g)
         Lmin, Lmax = SV.of(g.minLOSpathLen).term(), SV.of(g.maxLOSpathLen).term()
         r, R = SV.of(g.core_alt).term(), SV.of(g.earth_radius).term()
         R2 = SV.of(g.earth_rad_2).term()
@@ -107,7 +105,7 @@ def weight_run():
             "cos(theta_TrV) > 0 on the cube (cone half-angle below 90 deg)": cV > 0,
             "path-length density is non-negative on [Lmin, Lmax]: A - L^2 >= 0": A - L * L >= 0,
         }
-        return harness.Out(claims=claims, lemmas=lem, inputs=dict(inp, **{f"u{k+1}": us[k][0] for k in range(4)}), skip_defd=lambda t, w: P2._skip_origin(t, w) or _skip_unc(t, w))
+        return harness.Out(claims=claims, lemmas=lem, inputs=dict(inp, **{f"u{k+1}": us[k][0] for k in range(4)}), skip_defd=lambda t, w, c=None: P2._skip_origin(t, w, c) or _skip_unc(t, w))
 
     return run
 
